@@ -109,7 +109,8 @@ struct wcfg {
         int h_hold_exit;       /* event handlers may call cat_hold_exit from inside (choice) */
         int nev; struct { int cmd; cat_cmd_type type; } ev[W_MAXEV];
         int trig_budget;       /* 0 = unlimited */
-        int act_trigger, act_hold_exit, act_queries, act_flags;
+        int act_trigger, act_hold_exit, act_queries, act_flags, act_reinit;
+        int reinit_budget;     /* number of re-initialisations per path (default 1) */
         int flag_budget;       /* 0 = unlimited flips */
         struct gencfg gen;
         unsigned mon;          /* enabled property monitors */
@@ -118,6 +119,8 @@ struct wcfg {
         int merge_doomed;      /* forget the bytes of lines that are certainly answered ERROR (state merging) */
         int wo_fill;           /* fill byte for write-only storage at init (C08 pairing) */
         int var_init;          /* initial value pattern selector for variables */
+        int refusal_probe;     /* 1: whenever a refusal-only cat_service call changed parser state, follow the all-refusing continuation (side exploration) */
+        int str_full;          /* string variables start with all data_size bytes non-zero (no terminator inside the storage) */
 };
 
 /* ---- actions of the universal model ---- */
@@ -132,6 +135,7 @@ enum {
         A_Q_PROCESSED,
         A_FLAG_CMD,    /* + cmd index: toggle disable */
         A_FLAG_GRP,    /* + group index */
+        A_REINIT,      /* cat_init called again on the used object */
         A__KINDS
 };
 
@@ -141,6 +145,7 @@ struct calllog {
         int writes_attempted, writes_accepted, writes_refused;
         int handler_calls, var_calls, locks, unlocks, lock_failed, unlock_failed;
         int nonquiet;     /* a handler/var choice other than index 0 was taken */
+        int nested_lock_refused;
         int out_n; uint8_t out[64];
         int in_n; uint8_t in[8];
 };
@@ -161,7 +166,7 @@ struct wstats {
         uint64_t busy_ok_checked, busy_busy, hold_yes;
         uint64_t overlong, ambiguous_eq, ambiguous_lf, notfound, drain_err, implicit_hits, test_forms, list_lines;
         uint64_t wvar_ok, wvar_err, rvar;
-        uint64_t flag_flips;
+        uint64_t flag_flips, reinits, refusal_probes, refusal_probe_calls;
         uint64_t canary_checks;
         uint64_t outcome_classes[128];
         int nsamples; char samples[6][400];
